@@ -299,7 +299,21 @@ impl World {
             detail,
             replay,
         });
-        self.stopped = true;
+        // A wire-level observation that belongs to another property (activation flags, flavours,
+        // freshness, tracing points, state changed by a failed call) is recorded but does not end
+        // the history: its consequences for *this* profile's property must still be observable.
+        let soft = prop != self.p.prop
+            && (signature.starts_with("msk-activation-flag")
+                || signature.starts_with("mpk-publishes-disabled-right")
+                || signature.starts_with("msk-flavour")
+                || signature.starts_with("mpk-flavour")
+                || signature.starts_with("usk-flavour")
+                || signature.starts_with("msk-duplicate-secret")
+                || signature.starts_with("msk-changed-by-failed-call")
+                || signature.starts_with("usk-changed-by-failed-call"));
+        if !soft {
+            self.stopped = true;
+        }
     }
 
     fn cause(&self) -> String {
@@ -1132,7 +1146,12 @@ impl World {
                     Some(false) => {
                         self.unchanged_msk(&before, op);
                     }
-                    None => {}
+                    None => {
+                        // an error nobody expected is still an error: the key must be untouched
+                        if matches!(out, Out::Err(_)) {
+                            self.unchanged_msk(&before, op);
+                        }
+                    }
                 }
             }
             Op::DelDim { name } => {
@@ -1154,7 +1173,12 @@ impl World {
                     Some(false) => {
                         self.unchanged_msk(&before, op);
                     }
-                    None => {}
+                    None => {
+                        // an error nobody expected is still an error: the key must be untouched
+                        if matches!(out, Out::Err(_)) {
+                            self.unchanged_msk(&before, op);
+                        }
+                    }
                 }
             }
             Op::AddAttr { dim, name, hybrid, after } => {
@@ -1194,7 +1218,12 @@ impl World {
                     Some(false) => {
                         self.unchanged_msk(&before, op);
                     }
-                    None => {}
+                    None => {
+                        // an error nobody expected is still an error: the key must be untouched
+                        if matches!(out, Out::Err(_)) {
+                            self.unchanged_msk(&before, op);
+                        }
+                    }
                 }
             }
             Op::DelAttr { dim, name } => {
@@ -1215,7 +1244,12 @@ impl World {
                     Some(false) => {
                         self.unchanged_msk(&before, op);
                     }
-                    None => {}
+                    None => {
+                        // an error nobody expected is still an error: the key must be untouched
+                        if matches!(out, Out::Err(_)) {
+                            self.unchanged_msk(&before, op);
+                        }
+                    }
                 }
             }
             Op::Rename { dim, old, new } => {
@@ -1236,7 +1270,12 @@ impl World {
                     Some(false) => {
                         self.unchanged_msk(&before, op);
                     }
-                    None => {}
+                    None => {
+                        // an error nobody expected is still an error: the key must be untouched
+                        if matches!(out, Out::Err(_)) {
+                            self.unchanged_msk(&before, op);
+                        }
+                    }
                 }
             }
             Op::Disable { dim, name } => {
@@ -1251,7 +1290,12 @@ impl World {
                     Some(false) => {
                         self.unchanged_msk(&before, op);
                     }
-                    None => {}
+                    None => {
+                        // an error nobody expected is still an error: the key must be untouched
+                        if matches!(out, Out::Err(_)) {
+                            self.unchanged_msk(&before, op);
+                        }
+                    }
                 }
             }
             Op::Update => {
@@ -1278,6 +1322,9 @@ impl World {
                         self.unchanged_msk(&before, op);
                     }
                     None => {
+                        if matches!(out, Out::Err(_)) {
+                            self.unchanged_msk(&before, op);
+                        }
                         // an update that should have been refused (a new right involving a disabled
                         // attribute): does the public key it returned publish such a right? (C06)
                         if let (Err(MErr::BornDisabled), Out::Ok(mpk)) = (&exp, &out) {
@@ -1348,6 +1395,9 @@ impl World {
                         self.unchanged_msk(&before, op);
                     }
                     None => {
+                        if matches!(out, Out::Err(_)) {
+                            self.unchanged_msk(&before, op);
+                        }
                         // the call succeeded although it had to fail: the model cannot follow, but
                         // the model-free invariants still can (and an update makes the state settle)
                         if out.is_ok() {
@@ -1387,7 +1437,12 @@ impl World {
                     Some(false) => {
                         self.unchanged_msk(&before, op);
                     }
-                    None => {}
+                    None => {
+                        // an error nobody expected is still an error: the key must be untouched
+                        if matches!(out, Out::Err(_)) {
+                            self.unchanged_msk(&before, op);
+                        }
+                    }
                 }
             }
             Op::Refresh { usk, keep } => {
@@ -1458,7 +1513,7 @@ impl World {
                                     r.iter().any(|t| self.mskm.st.attr_by_tok(*t).map_or(false, |(_, a)| a.disabled))
                                 })
                             });
-                            if disabled {
+                            if disabled && self.p.prop == "C06" {
                                 if let Some(f) = self.stats.findings.last_mut() {
                                     f.prop = "C06".into();
                                     f.signature = "C06:encaps-for-disabled-attribute-succeeds".into();
